@@ -140,6 +140,11 @@ impl<'a> GenC<'a> {
                 // (only S) with no identifier at all binds nothing
                 let nonempty = !self.rng.chance(1, 6);
                 let mut ids = self.subset(&names, nonempty);
+                if !ids.is_empty() && self.rng.chance(1, 6) {
+                    // an identifier listed twice
+                    let again = self.rng.pick(&ids).clone();
+                    ids.push(again);
+                }
                 self.rng.shuffle(&mut ids);
                 let mut v = vec![sym("only"), inner];
                 v.extend(ids.iter().map(|s| sym(s)));
@@ -165,7 +170,8 @@ impl<'a> GenC<'a> {
                 let mut pool: Vec<String> = sources.clone();
                 for _ in 0..sources.len() {
                     self.fresh += 1;
-                    pool.push(format!("n{}", self.fresh));
+                    // fresh names that no library exports
+                    pool.push(format!("zz{}", self.fresh));
                 }
                 pool.retain(|t| !staying.contains(t));
                 self.rng.shuffle(&mut pool);
@@ -198,7 +204,12 @@ fn generate_c(seed: u64, quick: bool) -> Value {
     let mut libs: BTreeMap<String, Vec<String>> = BTreeMap::new();
     libs.insert("(lt one)".into(), vec!["a".into(), "b".into(), "c".into(), "d".into()]);
     if rng.chance(1, 3) {
-        libs.insert("(lt two)".into(), vec!["e".into(), "f".into()]);
+        // one export name is a prefix of the other
+        libs.insert("(lt two)".into(), vec!["e".into(), "e!".into()]);
+    }
+    if rng.chance(1, 5) {
+        // a library with many exports
+        libs.insert("(lt big)".into(), (0..20).map(|i| format!("n{}", i)).collect());
     }
     let max_depth = if quick { 2 } else { 3 };
     let mut decl;
@@ -246,6 +257,9 @@ fn generate_c(seed: u64, quick: bool) -> Value {
 fn export_value(lib: &str, export: &str) -> i64 {
     // (lt one): a distinct value per export; (lt two): both exports hold the SAME value,
     // so that anything keyed by value instead of by name shows
+    if lib == "(lt big)" {
+        return 300 + export[1..].parse::<i64>().unwrap_or(0);
+    }
     if lib != "(lt one)" {
         return 205;
     }
